@@ -124,7 +124,7 @@ def modelEnumOrder : List String := TS.all.map TS.name
 
 def rankSorted : Bool := TS.all.map TS.rank == List.range 14
 
-def cfg0 (nb : Bool) : Cfg := ⟨1, fun _ => [], nb⟩
+def cfg0 (nb : Bool) : Cfg := { n := 1, deps := fun _ => [], needBuild := nb }
 
 def stateWith (x : TS) : St := { St.init with st := fun _ => x }
 
